@@ -11,6 +11,9 @@ import common, sem, lin, gen, zq
 from common import run_driver, parallel, Report, tier, seed, fs, canon
 
 EPS = Fraction(1, 10 ** 7)
+# optimum of the eps-relaxed linear model vs optimum of the source: the relaxation moves an optimum by eps times the
+# conditioning of the rows (big-M constants), so this sanity comparison is looser than the pointwise obligations
+OPT_TOL = Fraction(1, 10 ** 4)
 PROP = None       # set by main before forking
 QT = 10000
 
@@ -178,12 +181,12 @@ def judge_c02(model, L, out, res):
     # the "consequently" clause, asked directly on a sample: same status and same optimal value (z3 Optimize, exact)
     if res.get('idx', 0) % 7 == 0 and not res['fails']:
         so, vo = optimize(S, f, d)
-        sl, vl = optimize(Ln, g, d)
+        sl, vl = optimize(Ln_eps, g, d)   # relaxed by the float-noise margin, like every obligation about Lin
         res['q'] += 2
         if 'unknown' not in (so, sl):
             if so != sl:
                 res['fails'].append({'ob': 'optimum-status-differs', 'cause': 'other', 'source': so, 'linear': sl, 'point': None})
-            elif so == 'ok' and abs(vo - vl) > obj_margin(model, L) * 10:
+            elif so == 'ok' and abs(vo - vl) > OPT_TOL * (1 + abs(vo)):
                 res['fails'].append({'ob': 'optimal-value-differs', 'cause': 'other', 'source': str(vo), 'linear': str(vl), 'point': None})
 
 
@@ -398,10 +401,21 @@ def work(chunk):
 def replay_fail(model, fail):
     """re-run the REAL compiler and confirm the counterexample; returns (confirmed, detail)"""
     ob = fail['ob']
-    if fail.get('point') is None:
+    if fail.get('point') is None and ob not in ('optimum-status-differs', 'optimal-value-differs'):
         # structural (NaN bound, missing variable, panic): confirm by recompiling and looking again
         out = run_driver(compile_jobs([{'model': model}]))[0]
         return True, {'recompiled': out.get('lin', {}).get('ok') is not None}
+    if ob in ('optimum-status-differs', 'optimal-value-differs'):
+        out = run_driver(compile_jobs([{'model': model}]))[0]
+        L = out['lin'].get('ok')
+        if L is None:
+            return False, {'why': 'does not compile on replay'}
+        srcn, aux, env = envs(model, L)
+        d = model['obj']['dir']
+        so, vo = optimize(sem.src_c(model, env), sem.val(model['obj']['e'], env), d)
+        sl, vl = optimize(lin.lin_c(L, env, EPS), lin.lin_obj(L, env), d)
+        differs = so != sl or (so == 'ok' and abs(vo - vl) > OPT_TOL * (1 + abs(vo)))
+        return (differs and 'unknown' not in (so, sl)), {'source': [so, str(vo)], 'linear': [sl, str(vl)]}
     pt = zq.point_from_json(fail['point'])
     flt = {n: zq.exact_float(v) for n, v in pt.items()}
     exact = all(v is not None for v in flt.values())
@@ -454,8 +468,9 @@ def replay_fail(model, fail):
         srcn, aux, env = envs(model, L)
         d = model['obj']['dir']
         so, vo = optimize(sem.src_c(model, env), sem.val(model['obj']['e'], env), d)
-        sl, vl = optimize(lin.lin_c(L, env), lin.lin_obj(L, env), d)
-        return (so != sl or (so == 'ok' and vo != vl)), {'source': [so, str(vo)], 'linear': [sl, str(vl)]}
+        sl, vl = optimize(lin.lin_c(L, env, EPS), lin.lin_obj(L, env), d)
+        differs = so != sl or (so == 'ok' and abs(vo - vl) > OPT_TOL * (1 + abs(vo)))
+        return (differs and 'unknown' not in (so, sl)), {'source': [so, str(vo)], 'linear': [sl, str(vl)]}
     if ob in ('published-range', 'derived-range', 'subexp-range'):
         out = run_driver(compile_jobs([{'model': model}]))[0]
         if ob == 'subexp-range':
